@@ -348,7 +348,33 @@ var numTexts = []string{
 	"4294967296", "-4294967297", "1e-30", "255",
 }
 
+// numTripleFocus >= 0: half of the numbers of the run come from one triple (set and reset by a simulation that wants
+// the three to meet: a population of a few members drawn from all triples rarely holds one of them whole).
+var numTripleFocus = -1
+
+// numTriple: a decimal held at low precision, the same decimal held exactly enough, and a number strictly between the
+// decimal and what the low precision makes of it. The first two are one number, and wherever the third is put relative
+// to one of them it must be put relative to the other.
+func numTriple(c *Ctx, which int) NumDesc {
+	t := []string{"0.1", "0.3", "0.7", "2.2", "123.456", "-0.6"}[which%6]
+	prec := []uint{24, 16, 11}[(which/6)%3]
+	switch c.G(4) {
+	case 0:
+		return NumDesc{Mode: NumPrec, Prec: prec, Text: t}
+	case 1:
+		return NumDesc{Mode: []int{NumParse, NumFloat}[c.G(2)], Text: t}
+	}
+	exact, _, _ := big.ParseFloat(t, 10, 512, big.ToNearestEven)
+	low, _, _ := big.ParseFloat(t, 10, prec, big.ToNearestEven)
+	mid := new(big.Float).SetPrec(512).Add(exact, low)
+	mid.Quo(mid, big.NewFloat(2))
+	return NumDesc{Mode: NumParse, Text: mid.Text('g', 24)}
+}
+
 func genNum(c *Ctx, collide bool) NumDesc {
+	if numTripleFocus >= 0 && c.G(2) == 0 {
+		return numTriple(c, numTripleFocus)
+	}
 	var ti int
 	if collide {
 		ti = 8 + c.G(len(numTexts)-8)
@@ -380,23 +406,7 @@ func genNum(c *Ctx, collide bool) NumDesc {
 		}
 		d.Text = strconv.FormatFloat(f, 'g', -1, 64)
 	case 3:
-		// a decimal held at low precision, the same decimal held exactly enough, and a number strictly between the
-		// decimal and what the low precision makes of it: the first two are one number, and wherever the third is
-		// put relative to one of them it must be put relative to the other
-		t := []string{"0.1", "0.3", "0.7", "2.2", "123.456", "-0.6"}[c.G(6)]
-		prec := []uint{24, 16, 11}[c.G(3)]
-		switch c.G(4) {
-		case 0:
-			return NumDesc{Mode: NumPrec, Prec: prec, Text: t}
-		case 1:
-			return NumDesc{Mode: []int{NumParse, NumFloat}[c.G(2)], Text: t}
-		default:
-			exact, _, _ := big.ParseFloat(t, 10, 512, big.ToNearestEven)
-			low, _, _ := big.ParseFloat(t, 10, prec, big.ToNearestEven)
-			mid := new(big.Float).SetPrec(512).Add(exact, low)
-			mid.Quo(mid, big.NewFloat(2))
-			return NumDesc{Mode: NumParse, Text: mid.Text('g', 24)}
-		}
+		return numTriple(c, c.G(18))
 	case 2:
 		// whole numbers around the limits of the machine integer and float types
 		k := []uint{7, 8, 15, 16, 24, 31, 32, 53, 62, 63, 64, 65, 127, 128}[c.G(14)]
